@@ -171,7 +171,13 @@ def run(ctx):
             ok2, why2 = False, "the list is unified with %s, not with the last argument" % show(out)[:60]
         # contributions to the vector, in path order
         for e in p.events:
-            if e["k"] != "call" or e.get("inlined") or not e["args"] or strip(e["args"][0]) != vec:
+            if e["k"] != "call" or e.get("inlined") or not e["args"]:
+                continue
+            if strip(e["args"][0]) != vec:
+                if e["callee"] in crate and e["callee"] != val[1] and any(strip(a) == vec for a in e["args"]):
+                    ok1, why1 = False, ("the vector being collected is handed to %s (line %d), which is not walked into (it is recursive "
+                                        "or too large): what it adds is unknown — elements can be spliced in or lost" % (
+                                            e["callee"].split("::")[-1], e["line"]))
                 continue
             last = e["callee"].split("::")[-1]
             if last in ("push",):
@@ -196,6 +202,11 @@ def run(ctx):
                     ok1, why1 = False, "the walk at line %d is not given the built-in's own substitution set" % e["line"]
                 arg = _argument_of(w[2][0])
                 src = w[2][0]
+            elif e["callee"] in crate and e["callee"] != val[1]:
+                ok1, why1 = False, ("the vector being collected is handed to %s (line %d), which is not walked into (it is recursive or "
+                                    "too large): what it adds is unknown — elements can be spliced in or lost" % (
+                                        e["callee"].split("::")[-1], e["line"]))
+                continue
             else:
                 continue
             n2 += 1
